@@ -121,8 +121,10 @@ def Cache.inRange (c : Cache) (off : Int) : Bool :=
     else if ll ≥ off ∧ c.rdb.isSome then true
     else false
   | .memory =>
-    (match c.rdb with | some (left, _) => decide (off ≤ left) | none => false) ||
-    (match c.aof with | some (l, r) => decide (l ≤ off ∧ r ≥ off) | none => false)
+    -- log coverage first; the snapshot serves offsets before it, and its own offset only
+    -- while no log exists (once the log no longer starts there, that position is invalid)
+    (match c.aof with | some (l, r) => decide (l ≤ off ∧ r ≥ off) | none => false) ||
+    (match c.rdb with | some (left, _) => decide (off < left) || (decide (off = left) && c.aof.isNone) | none => false)
 
 /-- `Channel.IsValidOffset` (channel.go:112, memory_channel.go:74) -/
 def Cache.isValidOffset (c : Cache) (id : Id) (off : Int) : Bool :=
@@ -506,8 +508,9 @@ structure Sys where
     * `change`  the source turning into another one (failover exposing the current
                 id as previous one, or an unrelated history) whose current id is new;
     * `cache`   the cache being lost, trimmed, collected or replaced by another
-                instance's (any well-formed consistent cache not newly labelled
-                with the current id);
+                instance's: any well-formed consistent cache, except that a cache
+                which held nothing under the current id yet may not be replaced
+                by one that does (nobody but `syncMeta` produces data under it);
                 in particular `syncMeta` failing after `DelRunId`/`SetRunId` (cache
                 empty, already labelled with the current id) and before the
                 output was told anything;
@@ -528,7 +531,7 @@ inductive Reach (w : World) : Sys → Prop
       s'.id1 ≠ σ.t.stored.runId → s'.id1 ≠ σ.c.runId →
       (s'.id2 = σ.t.stored.runId → σ.t.stored.runId = σ.s.id1) → Reach w ⟨s', σ.t, σ.c, σ.d⟩
   | cache (σ : Sys) (c' : Cache) (d' : CData) : Reach w σ → CacheWF c' → CacheOK w c' d' →
-      (c'.runId = σ.c.runId ∨ NotYetCurrent σ.s c') → Reach w ⟨σ.s, σ.t, c', d'⟩
+      (NotYetCurrent σ.s σ.c → NotYetCurrent σ.s c') → Reach w ⟨σ.s, σ.t, c', d'⟩
   | forget (σ : Sys) (sp' : SP) : Reach w σ →
       ((sp'.runId ≠ σ.s.id1 ∧ sp'.runId ≠ σ.s.id2) ∨ sp'.offset < 0) →
       Reach w ⟨σ.s, ⟨sp', σ.t.truth⟩, σ.c, σ.d⟩
